@@ -68,6 +68,7 @@ fn main() {
 			"window" => window::suite(&mut out, seed, thorough),
 			"action" => action::suite(&mut out, seed, thorough),
 			"ctor" => methods::ctor_suite(&mut out, seed, thorough),
+			"long" => methods::long_suite(&mut out, seed, thorough),
 			"malaw" => malaw::suite(&mut out, seed, thorough),
 			"candle" => candle::suite(&mut out, seed, thorough),
 			"renko" => renko::suite(&mut out, seed, thorough),
